@@ -237,8 +237,10 @@ def check_get_pool_results(prog: Program) -> tuple:
     if g.ifs:
         return False, f"results are filtered (`if {norm(g.ifs[0], 50)}`): a pooled evaluation can be lost"
     it = g.iter
+    ac_args = (list(it.args) + [k.value for k in it.keywords if k.arg == "fs"]) if isinstance(it, ast.Call) else []
     over = (isinstance(it, ast.Call) and dotted(it.func) in ("parallel.as_completed", "as_completed", "concurrent.futures.as_completed")
-            and len(it.args) == 1 and dotted(it.args[0]) == param) or dotted(it) == param \
+            and len(ac_args) == 1 and dotted(ac_args[0]) == param and all(k.arg in ("fs", "timeout") for k in it.keywords)) \
+        or dotted(it) == param \
         or (isinstance(it, ast.Call) and dotted(it.func) in ("parallel.wait",) and False)
     if not over:
         return False, f"the comprehension ranges over `{norm(it, 50)}`, not over every submitted future"
